@@ -9,6 +9,8 @@ package c17
 
 import (
 	"fmt"
+	"os"
+	"path/filepath"
 	"strconv"
 	"strings"
 	"time"
@@ -24,6 +26,9 @@ func opts(g *core.G, thorough bool) core.TreeOpts {
 	o.MinTips, o.MaxTips = 4, 9
 	if thorough {
 		o.MaxTips = 14
+		if g.Chance(0.004) {
+			o.MinTips, o.MaxTips = 25, 40 // a few large trees
+		}
 	}
 	if g.Chance(0.15) {
 		o.MinTips, o.MaxTips = 4, 5
@@ -289,6 +294,65 @@ func doCLI2(c *core.Ctx, a, b *core.N) {
 	c.Emit("C17.cli2", a.Dump(), b.Dump(), beforeA, beforeB, out, recs.String(), core.Escape(strings.TrimSpace(r.Stderr)))
 }
 
+// doGlue exercises the glue of cmd/nni.go: input from stdin, output to a file (-o), a second
+// record that is not a tree (error path of commit 9333707), an input file that does not exist.
+func doGlue(c *core.Ctx, variant string, n *core.N) {
+	t, err := core.Build(n)
+	if err != nil {
+		panic(err)
+	}
+	text := t.Newick()
+	before, st := parseDump(text)
+	if st != "ok" {
+		panic("c17: cannot re-read the input text: " + st)
+	}
+	var r core.CLIResult
+	outText := ""
+	switch variant {
+	case "stdin":
+		r = c.RunCLI(text+"\n", 30*time.Second, "nni")
+		outText = r.Stdout
+	case "outfile":
+		file := c.TmpFile(text + "\n")
+		out := c.TmpFile("")
+		r = c.RunCLI("", 30*time.Second, "nni", "-i", file, "-o", out)
+		b, _ := os.ReadFile(out)
+		outText = string(b)
+		if strings.TrimSpace(r.Stdout) != "" {
+			outText = "STDOUT-NOT-EMPTY\n" + outText
+		}
+	case "errtree":
+		file := c.TmpFile(text + "\n(x,y,(z,w);\n")
+		r = c.RunCLI("", 30*time.Second, "nni", "-i", file)
+		outText = r.Stdout
+	case "missing":
+		r = c.RunCLI("", 30*time.Second, "nni", "-i", filepath.Join(c.Tmp, "no-such-file.nw"))
+		outText = r.Stdout
+	default:
+		panic("c17: unknown glue variant " + variant)
+	}
+	out := "ok"
+	if r.Timeout {
+		out = "timeout"
+	} else if r.Exit != 0 {
+		out = fmt.Sprintf("exit:%d", r.Exit)
+	}
+	crashed := "nopanic"
+	if strings.Contains(r.Stderr, "panic:") || strings.Contains(r.Stderr, "goroutine ") {
+		crashed = "panic"
+	}
+	var recs strings.Builder
+	lines := strings.Split(strings.TrimRight(outText, "\n"), "\n")
+	if strings.TrimSpace(outText) == "" {
+		lines = nil
+	}
+	for _, l := range lines {
+		d, st := parseDump(l)
+		fmt.Fprintf(&recs, "%s;%s;%s|", st, d, core.Escape(l))
+	}
+	c.Emit("C17.glue", variant, n.Dump(), before, out, crashed, recs.String(), core.Escape(strings.TrimSpace(r.Stderr)))
+}
+
 // Replay re-executes the requests of a corpus / replay file on the real code.
 func Replay(c *core.Ctx, lines []string) {
 	for _, l := range lines {
@@ -306,6 +370,12 @@ func Replay(c *core.Ctx, lines []string) {
 				panic(err)
 			}
 			doCLI(c, n)
+		case f[0] == "C17.glue" && len(f) >= 3 && c.Gotree != "":
+			n, err := core.ParseDump(f[2])
+			if err != nil {
+				panic(err)
+			}
+			doGlue(c, f[1], n)
 		case f[0] == "C17.cli2" && len(f) >= 3 && c.Gotree != "":
 			a, err := core.ParseDump(f[1])
 			if err != nil {
@@ -353,8 +423,12 @@ func Run(c *core.Ctx) {
 			randomPPos(c.G, base, true)
 		}
 		// every root position: re-root the Go tree at every inner node
+		large := len(base.TipNames()) > 16
 		for _, p := range base.Paths() {
 			if x := base.At(p); len(x.Kids) < 2 {
+				continue
+			}
+			if large && len(p) > 0 && !c.G.Chance(0.15) {
 				continue
 			}
 			t, err := core.Build(base)
@@ -393,7 +467,20 @@ func Run(c *core.Ctx) {
 		o.Multif = 0.7
 		o.MaxDeg = 4
 		o.Rooted = 2
+		switch i % 4 {
+		case 1:
+			o.Singles = 0.2 // single-child inner nodes
+		case 2:
+			o.Multif = 0 // binary below, but the root becomes a tip (one neighbour)
+		}
 		base, _ := c.G.Tree(o)
+		if i%4 == 2 {
+			top := &core.N{Name: "r0", Kids: []*core.N{base}}
+			base.E = core.NewE()
+			base.E.Len = 0.5
+			base.PPos = c.G.Intn(len(base.Kids) + 1)
+			base = top
+		}
 		core.NumberEdges(base)
 		if c.G.Chance(0.5) {
 			randomPPos(c.G, base, true)
@@ -432,6 +519,10 @@ func Run(c *core.Ctx) {
 				continue
 			}
 			doCLI(c, cliTree("t"))
+		}
+		glue := []string{"stdin", "outfile", "errtree", "missing"}
+		for i := 0; i < c.Scale(12, 80); i++ {
+			doGlue(c, glue[i%len(glue)], cliTree("t"))
 		}
 	}
 }
